@@ -17,6 +17,15 @@
 //!         then rules=<n> fields=<n> empty=<0|1>
 //! E  (BackwardEngine over a KnowledgeBase)  +<rule> | -<name> | e:<name>:<0|1> | B (rebuild_index) | W (re-create with_config)
 //!    obs: per op `<total_rules>,<indexed_fields>` of index_stats()
+//! K  (CompactAlphaMemory)  A:<facts> | R:<facts> | C:<facts>
+//!    obs: one bit per R (returned flag) and per C (contains), then len=<n> refs=<n> (len / total_refs; is_empty checked against len)
+//! N  (NodeSharingRegistry)  G:<rule>:<pat> (register) | U:<rule> (unregister_rule) | Q:<pat> (get)     pat := <hex field>,<hex operator>,<hex value>
+//!    obs: per G / Q  `<r1.r2…>/<ref_count>` (rule_indices of the shared node) or `none`, then stats=<total_nodes>,<unique_patterns>,<shared_instances>
+//! V  <vs> <vs> …            (values only)
+//!    obs: ik=<per value: hex of the REAL alpha index key, read off `format!("{:?}", memory)` of a one-fact indexed memory; `~` = no key>
+//! Every A / B / M / K / V observation ends with  kt=<hex of the real `format!("{:?}", v)` of every value of the case, in case order>
+//! and every A observation carries st=<total_queries>,<indexed_lookups>,<linear_scans> (read off `stats().to_string()`); M carries
+//! nk=<hex of the real `format!("{:?}", node)` of every node>.
 use rre_harness::*;
 use rust_rule_engine::backward::backward_engine::{BackwardConfig, BackwardEngine};
 use rust_rule_engine::backward::conclusion_index::ConclusionIndex;
@@ -27,7 +36,7 @@ use rust_rule_engine::rete::alpha_memory_index::AlphaMemoryIndex;
 use rust_rule_engine::rete::facts::{FactValue, TypedFacts};
 use rust_rule_engine::rete::memoization::MemoizedEvaluator;
 use rust_rule_engine::rete::network::ReteUlNode;
-use rust_rule_engine::rete::optimization::BetaMemoryIndex;
+use rust_rule_engine::rete::optimization::{AlphaPattern, BetaMemoryIndex, CompactAlphaMemory, NodeSharingRegistry, SharedAlphaNode};
 use rust_rule_engine::types::{ActionType, Operator, Value};
 use std::collections::HashMap;
 
@@ -104,6 +113,205 @@ fn facts_str(kvs: &[(String, FactValue)]) -> String {
     kvs.iter().map(|(k, v)| format!("{}={}", k, val_str(v))).collect::<Vec<_>>().join("/")
 }
 
+
+/// the values of a facts text in the order they are written
+fn facts_values(s: &str) -> Option<Vec<FactValue>> {
+    let mut out = Vec::new();
+    if s == "-" {
+        return Some(out);
+    }
+    for kv in s.split('/') {
+        let (_, v) = kv.split_once('=')?;
+        out.push(parse_val(v)?);
+    }
+    Some(out)
+}
+
+/// every value of a case, in case order (what the `kt=` trailer renders)
+fn case_values(t: &[&str]) -> Option<Vec<FactValue>> {
+    let mut out = Vec::new();
+    let comp = *t.first()?;
+    let start = if comp == "B" { 2 } else { 1 };
+    for op in t.iter().skip(start) {
+        let parts: Vec<&str> = op.splitn(3, ':').collect();
+        match comp {
+            "A" => match parts[0] {
+                "I" => out.extend(facts_values(parts.get(1)?)?),
+                "F" => out.push(parse_val(parts.get(2)?)?),
+                x if x.starts_with('T') => out.push(parse_val(parts.get(2)?)?),
+                _ => {}
+            },
+            "B" => match parts[0] {
+                "A" | "R" => out.extend(facts_values(parts.get(2)?)?),
+                "L" if parts.get(1) == Some(&"v") => out.push(parse_val(parts.get(2)?)?),
+                _ => {}
+            },
+            "M" => {
+                if let Some(f) = op.strip_prefix("S:") {
+                    out.extend(facts_values(f)?);
+                }
+            }
+            "K" => out.extend(facts_values(op.splitn(2, ':').nth(1)?)?),
+            "V" => out.push(parse_val(op)?),
+            _ => {}
+        }
+    }
+    Some(out)
+}
+
+fn key_texts(t: &[&str]) -> String {
+    match case_values(t) {
+        None => "kt=?".to_string(),
+        Some(vs) if vs.is_empty() => "kt=-".to_string(),
+        Some(vs) => format!("kt={}", vs.iter().map(|v| hex(&format!("{:?}", v))).collect::<Vec<_>>().join(",")),
+    }
+}
+
+/// undo `<str as Debug>`: `s` starts right after the opening quote; returns the content and the rest after the closing quote
+fn unescape_debug(s: &str) -> Option<(String, &str)> {
+    let mut out = String::new();
+    let mut it = s.char_indices();
+    while let Some((i, c)) = it.next() {
+        match c {
+            '"' => return Some((out, &s[i + 1..])),
+            '\\' => match it.next()?.1 {
+                '0' => out.push('\0'),
+                't' => out.push('\t'),
+                'r' => out.push('\r'),
+                'n' => out.push('\n'),
+                '\\' => out.push('\\'),
+                '"' => out.push('"'),
+                '\'' => out.push('\''),
+                'u' => {
+                    if it.next()?.1 != '{' {
+                        return None;
+                    }
+                    let mut n: u32 = 0;
+                    loop {
+                        let d = it.next()?.1;
+                        if d == '}' {
+                            break;
+                        }
+                        n = n.checked_mul(16)?.checked_add(d.to_digit(16)?)?;
+                    }
+                    out.push(char::from_u32(n)?);
+                }
+                _ => return None,
+            },
+            c => out.push(c),
+        }
+    }
+    None
+}
+
+/// the key under which the real `AlphaMemoryIndex` files `v`: a one-fact memory with an index on `k`, its public `Debug`
+/// shows `indexes: {"k": {<key as a Debug string>: [0]}}` (or `{"k": {}}` when the value has no key). Inside the facts part
+/// every `"` of a string value is escaped, so the pattern with bare quotes can only be the field itself.
+fn real_index_key(v: &FactValue) -> Result<Option<String>, String> {
+    let mut m = AlphaMemoryIndex::new();
+    m.create_index("k".to_string());
+    let mut f = TypedFacts::new();
+    f.set("k".to_string(), v.clone());
+    m.insert(f);
+    let d = format!("{:?}", m);
+    let pat = "indexes: {\"k\": {";
+    let p = d.find(pat).ok_or("no-indexes-field")?;
+    let rest = &d[p + pat.len()..];
+    if rest.starts_with("}}") {
+        return Ok(None);
+    }
+    let rest = rest.strip_prefix('"').ok_or("no-key-quote")?;
+    let (key, after) = unescape_debug(rest).ok_or("bad-key-escape")?;
+    if !after.starts_with(": [0]}}") {
+        return Err("bad-key-tail".into());
+    }
+    // the same key must answer a filter through the index
+    if m.filter("k", v).len() != 1 {
+        return Err("keyed-but-not-found".into());
+    }
+    Ok(Some(key))
+}
+
+fn exec_values(toks: &[&str]) -> String {
+    let mut iks = Vec::new();
+    for t in toks {
+        let Some(v) = parse_val(t) else { return "bad-case".into() };
+        iks.push(match real_index_key(&v) {
+            Ok(Some(k)) => hex(&k),
+            Ok(None) => "~".to_string(),
+            Err(e) => format!("!{}", e),
+        });
+    }
+    format!("ik={}", if iks.is_empty() { "-".to_string() } else { iks.join(",") })
+}
+
+// ------------------------------------------------------------------ N: NodeSharingRegistry
+
+fn parse_pat(s: &str) -> Option<(String, String, String)> {
+    let p: Vec<&str> = s.split(',').collect();
+    if p.len() != 3 {
+        return None;
+    }
+    Some((unhex(p[0])?, unhex(p[1])?, unhex(p[2])?))
+}
+
+fn exec_registry(toks: &[&str]) -> String {
+    let mut reg = NodeSharingRegistry::new();
+    let mut out = Vec::new();
+    let show = |n: Option<&SharedAlphaNode>, pat: &(String, String, String)| -> String {
+        match n {
+            None => "none".to_string(),
+            Some(n) if n.node.field != pat.0 || n.node.operator != pat.1 || n.node.value != pat.2 => "wrong-node".to_string(),
+            Some(n) => format!("{}/{}", n.rule_indices.iter().map(|i| i.to_string()).collect::<Vec<_>>().join("."), n.ref_count),
+        }
+    };
+    for op in toks {
+        let parts: Vec<&str> = op.splitn(3, ':').collect();
+        match (parts[0], parts.len()) {
+            ("G", 3) => {
+                let (Some(r), Some(pat)) = (parts[1].parse::<usize>().ok(), parse_pat(parts[2])) else { return "bad-case".into() };
+                let node = AlphaNode { field: pat.0.clone(), operator: pat.1.clone(), value: pat.2.clone() };
+                let got = show(Some(reg.register(&node, r)), &pat);
+                out.push(got);
+            }
+            ("U", 2) => {
+                let Some(r) = parts[1].parse::<usize>().ok() else { return "bad-case".into() };
+                reg.unregister_rule(r);
+            }
+            ("Q", 2) => {
+                let Some(pat) = parse_pat(parts[1]) else { return "bad-case".into() };
+                let key = AlphaPattern { field: pat.0.clone(), operator: pat.1.clone(), value: pat.2.clone() };
+                out.push(show(reg.get(&key), &pat));
+            }
+            _ => return "bad-case".into(),
+        }
+    }
+    let st = reg.stats();
+    out.push(format!("stats={},{},{}", st.total_nodes, st.unique_patterns, st.shared_instances));
+    out.join(" ")
+}
+
+// ------------------------------------------------------------------ K: CompactAlphaMemory
+
+fn exec_compact(toks: &[&str]) -> String {
+    let mut mem = CompactAlphaMemory::new();
+    let mut out = Vec::new();
+    for op in toks {
+        let Some((h, f)) = op.split_once(':') else { return "bad-case".into() };
+        let Some(f) = parse_facts(f) else { return "bad-case".into() };
+        match h {
+            "A" => mem.add(&f),
+            "R" => out.push(mem.remove(&f)),
+            "C" => out.push(mem.contains(&f)),
+            _ => return "bad-case".into(),
+        }
+        if mem.is_empty() != (mem.len() == 0) {
+            return "bad-is-empty".into();
+        }
+    }
+    format!("r={} len={} refs={}", bits(&out), mem.len(), mem.total_refs())
+}
+
 fn pool() -> Vec<FactValue> {
     use FactValue::*;
     let s = |x: &str| String(x.to_string());
@@ -118,8 +326,159 @@ fn pool() -> Vec<FactValue> {
         Array(vec![Float(f64::NAN)]), Array(vec![Integer(5), s("a")]), Array(vec![Array(vec![Integer(5)])]),
         Array(vec![Array(vec![Float(-0.0)])]), Array(vec![Array(vec![Float(0.0)])]), Array(vec![Null]), Array(vec![Boolean(true)]),
         Array(vec![Integer(5), Integer(5)]),
+        // strings whose Debug text needs escapes / contains the array and string delimiters; deeper nesting
+        s("a, b"), s("\"), String(\""), s("a\nb\t\0'"), s("e\u{301}\u{200b}\u{e9}"), s("\u{1f600}\u{feff}\u{e000}"), s("\\u{301}"),
+        Array(vec![s("a, b")]), Array(vec![s("a"), s("b")]), Array(vec![s("a\"), String(\"b")]),
+        Array(vec![Array(vec![Array(vec![Float(-0.0), s("])")])]), Array(vec![])]),
+        Array(vec![Array(vec![Array(vec![Float(0.0), s("])")])]), Array(vec![])]),
     ]
 }
+
+/// strings that exercise every branch of `<str as Debug>`: fixed escapes, `'` (kept), control characters, DEL, non-ASCII printable,
+/// grapheme extenders, format / private-use / unassigned / separator characters, astral characters, and text that looks like
+/// the renderer's own output
+fn xstrings() -> Vec<std::string::String> {
+    [
+        "", "a", "a\"b", "a\\b", "a'b", "\n", "\t\r", "\0", "\u{7f}", "\u{1}\u{1b}", "\u{e9}", "\u{df}\u{4e2d}\u{3a9}", "\u{1f600}",
+        "a\u{301}", "\u{301}", "\u{200b}", "\u{feff}x", "\u{e000}", "\u{85}", "\u{ad}", "\u{2028}", "\u{e0001}", "\u{10ffff}",
+        "\u{a0}", "\u{3000}", "a, b", "\"), String(\"", "])", "\\u{301}", "\\n", "\\\"", "String(\"x\")", "Array([])", "Integer(1)",
+        "1", ", ", "[", "\u{1d11e}", "\u{ac00}\u{3042}\u{416}", "\u{200d}", "\u{20dd}", "\u{fe0f}", "\\", "\"", "\\\\", "u{41}", "{", "}",
+        "\u{fc}\u{2200}", "Float(NaN)", "Null", "\\0", "\\u{0}", "~ ",
+    ]
+    .iter()
+    .map(|x| x.to_string())
+    .collect()
+}
+
+/// the characters random strings are drawn from (ASCII incl. controls and delimiters + the non-ASCII code points above)
+fn xchars() -> Vec<char> {
+    "ab1 ,\"\\'()[]{}u\n\t\r\0\u{1}\u{1b}\u{7f}~\u{e9}\u{df}\u{fc}\u{3a9}\u{416}\u{4e2d}\u{3042}\u{ac00}\u{2200}\u{1f600}\u{1d11e}\u{301}\u{200b}\u{200d}\u{20dd}\u{fe0f}\u{feff}\u{e000}\u{85}\u{ad}\u{a0}\u{2028}\u{3000}\u{e0001}\u{10ffff}"
+        .chars()
+        .collect()
+}
+
+fn rand_string(rng: &mut Rng) -> std::string::String {
+    let xs = xstrings();
+    if rng.chance(1, 3) {
+        return rng.pick(&xs).clone();
+    }
+    let cs = xchars();
+    (0..rng.below(7)).map(|_| *rng.pick(&cs)).collect()
+}
+
+/// a random value, arrays nested up to `depth`
+fn rand_val(rng: &mut Rng, depth: u32) -> FactValue {
+    use FactValue::*;
+    let nan2 = f64::from_bits(0xfff8_0000_0000_0001);
+    match rng.below(if depth == 0 { 8 } else { 12 }) {
+        0..=3 => String(rand_string(rng)),
+        4 => Integer(*rng.pick(&[0i64, 1, -1, 5, -5, 10, 255, i64::MAX, i64::MIN])),
+        5 => Float(*rng.pick(&[0.0, -0.0, f64::NAN, nan2, 1.0, 5.0, 2.5, -2.5, 0.1, 1e16, 1e-7, f64::INFINITY, f64::NEG_INFINITY, f64::MIN_POSITIVE, 5e-324])),
+        6 => Boolean(rng.chance(1, 2)),
+        7 => Null,
+        _ => Array((0..rng.below(4)).map(|_| rand_val(rng, depth - 1)).collect()),
+    }
+}
+
+/// V cases: every exotic string alone and inside an array; splitting / joining confusers; random values nested 0..3 deep
+fn gen_values(rng: &mut Rng, n: usize) -> Vec<std::string::String> {
+    use FactValue::*;
+    let xs = xstrings();
+    let mut out = Vec::new();
+    for x in &xs {
+        out.push(format!("V {} {}", val_str(&String(x.clone())), val_str(&Array(vec![String(x.clone())]))));
+    }
+    for (i, a) in xs.iter().enumerate() {
+        let b = &xs[(i * 7 + 3) % xs.len()];
+        // two elements vs. one element that spells the separator / the closing and opening of a string
+        out.push(format!(
+            "V {} {} {} {}",
+            val_str(&Array(vec![String(a.clone()), String(b.clone())])),
+            val_str(&Array(vec![String(format!("{}, {}", a, b))])),
+            val_str(&Array(vec![String(format!("{}\"), String(\"{}", a, b))])),
+            val_str(&Array(vec![Array(vec![String(a.clone())]), String(b.clone())])),
+        ));
+    }
+    for _ in 0..n {
+        let k = rng.range(1, 5);
+        let mut vs: Vec<FactValue> = Vec::new();
+        for _ in 0..k {
+            let v = if !vs.is_empty() && rng.chance(1, 3) {
+                // a near copy: wrap, unwrap or re-type
+                let w = rng.pick(&vs).clone();
+                match rng.below(3) {
+                    0 => Array(vec![w]),
+                    1 => String(format!("{:?}", w)),
+                    _ => w,
+                }
+            } else {
+                { let d = rng.below(4) as u32; rand_val(rng, d) }
+            };
+            vs.push(v);
+        }
+        out.push(format!("V {}", vs.iter().map(val_str).collect::<Vec<_>>().join(" ")));
+    }
+    out
+}
+
+
+fn pat_tok(p: &(&str, &str, &str)) -> std::string::String {
+    format!("{},{},{}", hex(p.0), hex(p.1), hex(p.2))
+}
+
+/// patterns that are easy to confuse when compared or hashed carelessly (same concatenation, trailing blank, empty parts)
+fn patterns() -> Vec<(&'static str, &'static str, &'static str)> {
+    vec![
+        ("x", "==", "5"), ("x", "==", "5 "), ("x", "==", "5.0"), ("x", "!=", "5"), ("x ", "==", "5"), ("y", "==", "5"),
+        ("x", "==", ""), ("x=", "=", "5"), ("", "x==", "5"), ("x", "=", "=5"), ("x", "contains", "a\"b"),
+    ]
+}
+
+fn gen_registry(rng: &mut Rng) -> std::string::String {
+    let all = patterns();
+    // a few patterns per case so that sharing happens
+    let k = rng.range(1, 4) as usize;
+    let pats: Vec<(&str, &str, &str)> = (0..k).map(|_| *rng.pick(&all)).collect();
+    let len = rng.range(3, 12);
+    let mut ops = Vec::new();
+    for _ in 0..len {
+        ops.push(match rng.below(100) {
+            0..=49 => format!("G:{}:{}", rng.below(4), pat_tok(rng.pick(&pats))),
+            50..=69 => format!("U:{}", rng.below(4)),
+            _ => format!("Q:{}", pat_tok(if rng.chance(4, 5) { rng.pick(&pats) } else { rng.pick(&all) })),
+        });
+    }
+    format!("N {}", ops.join(" "))
+}
+
+/// K cases: add / remove / contains over a handful of fact sets that are easy to confuse
+fn gen_compact(rng: &mut Rng, pool: &[FactValue]) -> std::string::String {
+    let groups = alike_groups();
+    let (g, _) = rng.pick(&groups).clone();
+    let mut sets: Vec<Vec<(std::string::String, FactValue)>> = Vec::new();
+    for v in &g {
+        sets.push(vec![("x".to_string(), v.clone())]);
+    }
+    let extra = if rng.chance(1, 2) { rng.pick(pool).clone() } else { rand_val(rng, 2) };
+    sets.push(vec![("y".to_string(), g[0].clone())]);
+    sets.push(vec![("x".to_string(), g[0].clone()), ("y".to_string(), extra.clone())]);
+    sets.push(vec![("x".to_string(), extra)]);
+    if rng.chance(1, 3) {
+        sets.push(vec![]);
+    }
+    let len = rng.range(3, 12);
+    let mut ops = Vec::new();
+    for _ in 0..len {
+        let f = facts_str(&rng.pick(&sets)[..]);
+        ops.push(match rng.below(100) {
+            0..=44 => format!("A:{}", f),
+            45..=69 => format!("R:{}", f),
+            _ => format!("C:{}", f),
+        });
+    }
+    format!("K {}", ops.join(" "))
+}
+
 
 // ------------------------------------------------------------------ A: alpha memory index
 
@@ -182,6 +541,25 @@ fn exec_alpha(ops: &[&str]) -> String {
     ix.sort();
     out.push(format!("n={}", mem.len()));
     out.push(format!("ix={}", if ix.is_empty() { "-".to_string() } else { ix.join(",") }));
+    // get(i) is the i-th fact of get_all(), is_empty agrees with len
+    if mem.is_empty() != (mem.len() == 0) || mem.get(mem.len()).is_some() {
+        return "bad-len".into();
+    }
+    for i in 0..mem.len() {
+        match mem.get(i) {
+            Some(f) if std::ptr::eq(f, &mem.get_all()[i]) => {}
+            _ => return "bad-get".into(),
+        }
+    }
+    // the IndexStats counters as its Display prints them
+    let st = mem.stats().to_string();
+    let num = |label: &str| -> String {
+        st.find(label)
+            .map(|p| st[p + label.len()..].chars().take_while(|c| c.is_ascii_digit()).collect::<String>())
+            .filter(|d| !d.is_empty())
+            .unwrap_or_else(|| "?".to_string())
+    };
+    out.push(format!("st={},{},{}", num("Total queries: "), num("Indexed lookups: "), num("Linear scans: ")));
     out.join(" ")
 }
 
@@ -349,7 +727,8 @@ fn exec_memo(toks: &[&str]) -> String {
     if st.cache_size != ev.cache_size() {
         return "bad-cache-size".into();
     }
-    format!("d={} m={} h={} miss={} size={}", bits(&d), bits(&m), join_nums(&h), st.misses, st.cache_size)
+    let nk = if nodes.is_empty() { "-".to_string() } else { nodes.iter().map(|n| hex(&format!("{:?}", n))).collect::<Vec<_>>().join(",") };
+    format!("d={} m={} h={} miss={} size={} nk={}", bits(&d), bits(&m), join_nums(&h), st.misses, st.cache_size, nk)
 }
 
 // ------------------------------------------------------------------ C / E: conclusion index
@@ -467,10 +846,14 @@ fn exec_engine(toks: &[&str]) -> String {
 
 fn exec(case: &str) -> String {
     let t: Vec<&str> = case.split_whitespace().collect();
+    let with_kt = |o: String| if o.starts_with("bad-") || o == "unstable" { o } else { format!("{} {}", o, key_texts(&t)) };
     match t.first().copied() {
-        Some("A") => exec_alpha(&t[1..]),
-        Some("B") => exec_beta(&t[1..]),
-        Some("M") => exec_memo(&t[1..]),
+        Some("A") => with_kt(exec_alpha(&t[1..])),
+        Some("B") => with_kt(exec_beta(&t[1..])),
+        Some("M") => with_kt(exec_memo(&t[1..])),
+        Some("K") => with_kt(exec_compact(&t[1..])),
+        Some("V") => with_kt(exec_values(&t[1..])),
+        Some("N") => exec_registry(&t[1..]),
         Some("C") => exec_concl(&t[1..]),
         Some("E") => exec_engine(&t[1..]),
         _ => "bad-case".into(),
@@ -1074,6 +1457,7 @@ fn gen(rng: &mut Rng, n: usize, tier: &str) -> Vec<String> {
                     "M N:al,x,eq,{},{} S:x={} S:x={} E:0:0 E:0:1 E:0:0",
                     hex("5"), val_str(&FactValue::Integer(5)), sa, sb
                 ));
+                out.push(format!("K A:x={} C:x={} A:x={} R:x={} C:x={} R:x={} C:x={} R:x={}", sa, sb, sa, sb, sa, sa, sa, sa));
             }
         }
     }
@@ -1107,6 +1491,24 @@ fn gen(rng: &mut Rng, n: usize, tier: &str) -> Vec<String> {
         let b = &pool[(i * 5 + 3) % pool.len()];
         let (sa, sb) = (val_str(a), val_str(b));
         out.push(format!("A C:x C:y I:x={}/y={} I:x={}/y={} F:x:{} F:y:{} F:x:{} F:y:{}", sa, sb, sb, sa, sa, sb, sb, sa));
+    }
+    // the key text itself: exotic strings, confusers, random values nested 0..3 deep; compact memory histories
+    out.extend(gen_values(rng, n / 6));
+    for _ in 0..n / 10 {
+        out.push(gen_compact(rng, &pool));
+    }
+    // node sharing registry: every history of length <= 3 over two look-alike patterns x two rules, then random ones
+    {
+        let (p, q) = (pat_tok(&("x", "==", "5")), pat_tok(&("x=", "=", "5")));
+        let alphabet: Vec<String> = vec![
+            format!("G:0:{}", p), format!("G:1:{}", p), format!("G:0:{}", q), "U:0".to_string(), "U:1".to_string(),
+        ];
+        for seq in all_seqs(&alphabet, 3) {
+            out.push(format!("N {} Q:{} Q:{}", seq.join(" "), p, q).replace("  ", " "));
+        }
+        for _ in 0..n / 15 {
+            out.push(gen_registry(rng));
+        }
     }
     // random part
     for k in 0..n {
